@@ -220,7 +220,7 @@ ELEM_NAMES = ['NT', 'TM', 'MO', 'MOT', 'CO', 'TRIV', 'INT', 'MA', 'MC', 'FLT']
 
 
 def drv_name(c):
-    s = 'N%d.%d-%s-%s' % (c['NA'], c['NB'], ELEM_NAMES[c['ELEM']], 'std' if c['ALLOC'] == 0 else 'led')
+    s = 'N%d.%d-%s-%s' % (c['NA'], c['NB'], ELEM_NAMES[c['ELEM']], ('std', 'led', 'fancy')[c['ALLOC']])
     if c['ALLOC']:
         s += '-ca%dma%ds%dae%d' % (c['POCCA'], c['POCMA'], c['POCS'], c['AE'])
     if c['CONSTRUCT']:
